@@ -458,6 +458,9 @@ def checkBufferSharing (m : Model) (res : List (String × CReq)) : PyM Unit := d
 /-- `ParamsGenerator.generate_quantization_parameters`; `qsvs = none` models `None`.
     Returns the requests in dict order. (The caller's statistics are never touched: repair D5.) -/
 def generate (rx : String → String → Bool) (env : Env) (st : Recipe.State) (qsvs : Option Qsvs) : PyM (List CReq) := do
+  -- ParamsGenerator.__init__: the model must be float and tensor names unique (ValueError)
+  if env.model.subgraphs.any (fun sg => sg.tensors.any (·.quant.isSome)) then throw .valueError
+  if !(env.model.subgraphs.flatMap fun sg => sg.tensors.map (·.name)).Nodup then throw .valueError
   if Recipe.needCalibration st && qsvs.isNone then throw .runtimeError
   let mut qs : Qsvs := qsvs.getD []
   let mut res : List (String × CReq) := []
